@@ -32,7 +32,8 @@ RULE = ("random package lists: 0-6 lines from package lines (6 spec spellings in
         "the sentinels * ^ -, tokens with an inner #; leading/trailing/irregular whitespace incl. tabs, NBSP, U+3000), blank lines, "
         "comment lines, trailing comments (also followed by trailing blanks, which belong to the comment), line endings \\n \\r\\n \\r none and occasionally \\v \\f \\x1c \\x85 U+2028, a few malformed "
         "specs; random suggestion tables (empty, one, several keywords, a literal sentinel); with_keywords on random parsed entries "
-        "with random new keywords; build from random (atom, keywords) lists. non-trivial = at least two package lines and (a sentinel, "
+        "with random new keywords; build from random (atom, keywords) lists, the entries and each entry's keywords handed over as every kind of "
+        "Iterable (list, tuple, deque, dict keys, and one-shot: generator, map, iterator, a class with only __iter__). non-trivial = at least two package lines and (a sentinel, "
         "a comment or irregular spacing). The property is evaluated on the real code for every text before any model comparison; a "
         "failing text is shrunk (lines, then characters) before it is reported; where model and code disagree the property is "
         "evaluated (incl. with_keywords on every line) on the text and its neighbours (single lines, keywords replaced by sentinels, "
@@ -418,6 +419,43 @@ def atom_oracle(text):
     return out
 
 
+class OneShot:
+    """an Iterable with nothing but __iter__, every call handing out the same (single) iterator: the minimal typing.Iterable"""
+
+    def __init__(self, items):
+        self._it = iter(list(items))
+
+    def __iter__(self):
+        return self._it
+
+
+ENTRY_SHAPES = ["list", "tuple", "generator", "iter", "oneshot"]
+KW_SHAPES = ["tuple", "list", "generator", "map", "iter", "dict_keys", "deque", "oneshot"]
+
+
+def shaped(shape, items):
+    """the same sequence of items as another kind of Iterable"""
+    import collections
+    items = list(items)
+    if shape == "list":
+        return items
+    if shape == "tuple":
+        return tuple(items)
+    if shape == "generator":
+        return (x for x in items)
+    if shape == "map":
+        return map(lambda x: x, items)
+    if shape == "iter":
+        return iter(items)
+    if shape == "dict_keys":          # keeps the first occurrence of a repeated keyword only: fall back to a tuple when there is one
+        return dict.fromkeys(items).keys() if len(set(items)) == len(items) else tuple(items)
+    if shape == "deque":
+        return collections.deque(items)
+    if shape == "oneshot":
+        return OneShot(items)
+    raise ValueError(shape)
+
+
 def entry_json(e):
     return [e.lineno, e.raw, None if e.pkg is None else str(e.pkg), list(e.keywords), e.comment, e.eol]
 
@@ -596,11 +634,31 @@ def run(ctx):
         builds.append([(rng.choice(ATOMS), [rng.choice(["amd64", "~x86", "-", "*", "^", "a#b"]) for _ in range(rng.choice([0, 1, 2, 3]))])
                        for _ in range(rng.randint(0, 4))])
     reqs = [{"cmd": "c38.build", "entries": [[str(atom(a)), kws] for a, kws in b]} for b in builds]
-    for b, rep in zip(builds, ctx.model(reqs)):
-        case = {"build": b}
+    # build() takes Iterable[tuple[atom, Iterable[str]]]: the entries and each entry's keywords are handed over in every shape an
+    # Iterable comes in — re-iterable containers and one-shot iterators (generator, map, iter, a class with only __iter__)
+    recorded_shapes = {}
+    if ctx.replay_cases:
+        for c in ctx.replay_cases:
+            if "build" in c:
+                b = [(a, list(kws)) for a, kws in c["build"]]
+                builds.insert(0, b)
+                reqs.insert(0, {"cmd": "c38.build", "entries": [[str(atom(a)), kws] for a, kws in b]})
+                if "shapes" in c:
+                    recorded_shapes[repr(b)] = c["shapes"]
+    for bi, (b, rep) in enumerate(zip(builds, ctx.model(reqs))):
+        if repr(b) in recorded_shapes:
+            shapes = recorded_shapes[repr(b)]
+        elif bi < 2 * len(KW_SHAPES):
+            shapes = {"entries": ENTRY_SHAPES[bi % len(ENTRY_SHAPES)], "keywords": [KW_SHAPES[bi % len(KW_SHAPES)]] * len(b)}
+        else:
+            shapes = {"entries": rng.choice(ENTRY_SHAPES), "keywords": [rng.choice(KW_SHAPES) for _ in b]}
+        case = {"build": b, "shapes": shapes}
         ents = [(atom(a), tuple(kws)) for a, kws in b]
+        ctx.count("build_entries_as_" + shapes["entries"])
+        for sh in shapes["keywords"]:
+            ctx.count("build_keywords_as_" + sh)
         try:
-            pl = PackageList.build(ents)
+            pl = PackageList.build(shaped(shapes["entries"], [(a, shaped(sh, kws)) for (a, kws), sh in zip(ents, shapes["keywords"])]))
             back = pl.entries
         except Exception as ex:
             ctx.case(case, True)
@@ -612,7 +670,21 @@ def run(ctx):
             ctx.note("parse_atom(str(atom)) != atom for a generated atom (contract of build_parse_roundtrip not met)")
             continue
         if [(e.pkg, e.keywords) for e in back] != ents or any(e.comment for e in back):
-            ctx.violation(case, f"built text {str(pl)!r} parses back as {[entry_json(e) for e in back]}")
+            # shrink: the first single entry that, handed over in the same shapes, already fails to come back
+            for (a, kws), sh in zip(b, shapes["keywords"]):
+                try:
+                    one = PackageList.build(shaped(shapes["entries"], [(atom(a), shaped(sh, kws))]))
+                    oback = [(e.pkg, e.keywords) for e in one.entries]
+                except Exception:
+                    continue
+                if oback != [(atom(a), tuple(kws))]:
+                    ctx.violation({"build": [(a, kws)], "shapes": {"entries": shapes["entries"], "keywords": [sh]}},
+                                  f"build of one entry ({a!r}, keywords {kws!r} given as {sh}, entries given as {shapes['entries']}) gives the text "
+                                  f"{str(one)!r}, which parses back as {[(str(p_), list(k_)) for p_, k_ in oback]}")
+                    break
+            else:
+                ctx.violation(case, f"built text {str(pl)!r} (entries given as {shapes['entries']}, keywords as {shapes['keywords']}) parses back as "
+                              f"{[entry_json(e) for e in back]}")
             continue
         if str(pl) != rep:
             ctx.mismatch(case, f"impl builds {str(pl)!r}, model {rep!r}")
